@@ -73,11 +73,51 @@ def builder_case(d, start, pop, part, all_nan_leaf=None):
     c02.compare_trees(got, want, start, kind, bad, True, stored)
 
 
+def updated_leaves_case(d, part, parallel_cascade=1):
+    """Leaves written through update_image in two passes (as multi-TAN tiling and non-clobbering
+    TOAST sampling do), the second pass widening the data range; then cascade."""
+    from toasty.image import Image, ImageMode
+    from toasty.merge import cascade_images, averaging_merger
+    from toasty.pyramid import PyramidIO, Pos
+
+    kind = "fits-F32"
+    cfg = {"updated_leaves": True, "start": 1}
+    part.case(nontrivial=True)
+
+    def bad(clause, detail):
+        part.violation("%s/%s" % (clause, kind), "%r: %s" % (cfg, detail), cfg)
+
+    root = os.path.join(d, "u")
+    shutil.rmtree(root, ignore_errors=True)
+    pio = PyramidIO(root, default_format="fits")
+    final = {}
+    try:
+        with quiet():
+            for k, pos in enumerate([(1, 0, 0), (1, 1, 0), (1, 1, 1)]):
+                disp = np.full((256, 256), np.nan, dtype="f4")
+                passes = [((0, 128), 1.0 + k, 2.0 + k), ((100, 256), -5.0 - k, 10.0 + k)]
+                for (r0, r1), lo, hi in passes:
+                    src = np.linspace(lo, hi, (r1 - r0) * 256).reshape(r1 - r0, 256).astype("f4")
+                    disp[r0:r1] = src
+                    stored_rows = slice(256 - r1, 256 - r0)  # FITS tiles are stored bottom-up
+                    with pio.update_image(Pos(*pos), masked_mode=ImageMode.F32, default="masked") as basis:
+                        Image.from_array(src[::-1].copy()).update_into_maskable_buffer(basis, slice(None), slice(None), stored_rows, slice(None))
+                final[pos] = disp
+            cascade_images(pio, 1, averaging_merger, parallel=parallel_cascade)
+    except Exception as e:
+        bad("updated-leaves-raises:%s" % type(e).__name__, repr(e))
+        return
+    got = c02.read_tree(root, "fits")
+    want = c02.expected_tree(final, 1, kind)
+    c02.compare_trees(got, want, 1, kind, bad, True, final)
+
+
 def _builder_job(job):
     part = Part()
     with scratch("c14") as d:
         for (start, pop, nanleaf) in job:
             builder_case(d, start, pop, part, nanleaf)
+        updated_leaves_case(d, part)
         part.sample({"builder_cascade": True, "start": job[0][0], "population": list(job[0][1]), "all_nan_leaf": job[0][2]})
     return part
 
@@ -90,7 +130,7 @@ def _job(j):
 
 def run(tier, seed):
     rep = Report(PROP, tier, seed, "model_checking")
-    kinds = ["fits-F32"] + (["fits-F64"] if tier == "thorough" else [])
+    kinds = ["fits-F32", "fits-F32z", "fits-F32n"] + (["fits-F64"] if tier == "thorough" else [])
     rep.rule = (
         "every sparse FITS leaf population of the C02 family (depth 1: all 16 subsets; depth 2: %d populations%s), serial cascade: DATAMIN/DATAMAX of "
         "every tile vs the finite leaf range beneath it, ImageSet and WTML range vs the root; parallel cascade under the virtual scheduler, all "
@@ -119,6 +159,13 @@ def run(tier, seed):
 
 def replay(payload):
     r = payload["replay"]
+    if r.get("updated_leaves"):
+        part = Part()
+        with scratch("c14r") as d:
+            updated_leaves_case(d, part)
+        for sig, (detail, _) in part.violations.items():
+            print("REPLAY-FAIL", sig, detail[:400])
+        return 1 if part.violations else 0
     if r.get("builder"):
         part = Part()
         with scratch("c14r") as d:
